@@ -562,6 +562,22 @@ func (g *Engine) registerIntrinsics() {
 	I["fmt.Errorf"] = func(e *Exec, fn *ssa.Function, a []Value) Value { return e.errorsNew(e.freshStr("fmt.Errorf", 8)) }
 	I["fmt.Sprintf"] = func(e *Exec, fn *ssa.Function, a []Value) Value { return e.freshStr("fmt.Sprintf", 8) }
 	I["fmt.Sprint"] = I["fmt.Sprintf"]
+	I["strings.ToLower"] = func(e *Exec, fn *ssa.Function, a []Value) Value {
+		s := a[0].(Str)
+		if c := e.strConcrete(s); c != "<symbolic string>" {
+			return e.strConst(strings.ToLower(c))
+		}
+		// bytewise ASCII lowering of a bounded symbolic string
+		tb := e.tb
+		arr := tb.ConstArr()
+		for k := 0; k < s.max; k++ {
+			kk := tb.BVu(uint64(k), 64)
+			b := tb.Select(s.arr, tb.Bin(OpAdd, s.off, kk))
+			up := tb.BAnd(tb.Cmp(OpUle, tb.BVu('A', 8), b), tb.Cmp(OpUle, b, tb.BVu('Z', 8)))
+			arr = tb.Store(arr, kk, tb.Ite(up, tb.Bin(OpAdd, b, tb.BVu(32, 8)), b))
+		}
+		return Str{arr: arr, off: tb.BVu(0, 64), len: s.len, max: s.max}
+	}
 	// encoders and decoders whose output content no property here depends on: opaque, total
 	I["encoding/json.Marshal"] = func(e *Exec, fn *ssa.Function, a []Value) Value {
 		s := e.freshStr("json.Marshal", 4)
